@@ -571,6 +571,13 @@ func (g *Gen) expand(pat string, v View) {
 		}
 		st = append(st, lit(Action{Op: "heal", Mode: "drop"}), advance(g.dur("d2", hb, et)))
 		g.push("P13", st...)
+	case "P18": // C18: raw public-API call sequences on nodes in every state
+		n := rapid.IntRange(5, 30).Draw(t, "apiSteps")
+		var st []step
+		for i := 0; i < n; i++ {
+			st = append(st, func(g *Gen, v View) (Action, bool) { return g.apiAction(v), true })
+		}
+		g.push("P18", st...)
 	case "P16": // C16: a strict minority (plus non-voters / removed nodes) misbehaves, the leader's majority stays prompt
 		g.push("P16", g.stickySteps(v)...)
 	case "P12": // figure 8: alternate partial replication between two nodes
@@ -883,6 +890,66 @@ func (g *Gen) stickyMark(v View) Action {
 	}
 	sort.Strings(g.sticky.bad)
 	return Action{Op: "mark", Node: l, Set: good, Desc: "T0"}
+}
+
+// apiAction draws one raw API call (or a little cluster activity between calls).
+func (g *Gen) apiAction(v View) Action {
+	t := g.T
+	et, hb := g.etUs(), g.hbUs()
+	node := g.anyNode("apiNode")
+	timeouts := []int{0, -1000, 1, 50, 300, 2000}
+	switch rapid.SampledFrom([]string{"status", "configuration", "render", "submit", "submit", "submit", "member", "member", "memberapi", "bootstrap", "start", "restart", "restart", "stop", "stop", "newraft",
+		"advance", "advance", "advance", "isolate", "heal", "crash", "noderestart"}).Draw(t, "api") {
+	case "status":
+		return Action{Op: "api", Kind: "status", Node: node}
+	case "configuration":
+		return Action{Op: "api", Kind: "configuration", Node: node}
+	case "render":
+		return Action{Op: "api", Kind: "render", Node: node}
+	case "submit":
+		return Action{Op: "api", Kind: "submit", Node: node, K: rapid.SampledFrom([]int{0, 0, 1, 2, 99, 3}).Draw(t, "optype"),
+			Mode: rapid.SampledFrom([]string{"small", "nil", "empty", "large"}).Draw(t, "payload"), Timeout: rapid.SampledFrom(timeouts).Draw(t, "timeout")}
+	case "member":
+		// a well-formed membership request (recorded as client invoke/return so that the "must resolve" rule applies)
+		at := v.Leader()
+		if at == "" || rapid.IntRange(0, 3).Draw(t, "anyAt") == 0 {
+			at = node
+		}
+		ms := g.membershipSteps(v)
+		a, _ := ms[1](g, View{Status: v.Status, Conf: v.Conf})
+		if a.Op == "add" || a.Op == "remove" {
+			a.Node = at
+			a.Timeout = rapid.SampledFrom([]int{50, 300, 2000}).Draw(t, "mtimeout")
+			return a
+		}
+		return Action{Op: "advance", DurUs: hb}
+	case "memberapi":
+		return Action{Op: "api", Kind: rapid.SampledFrom([]string{"add", "remove"}).Draw(t, "mk"), Node: node,
+			Node2: rapid.SampledFrom([]string{"", "n9", node, "n1", "n2"}).Draw(t, "mid"), Voter: rapid.Bool().Draw(t, "mvoter"), Timeout: rapid.SampledFrom(timeouts).Draw(t, "timeout")}
+	case "bootstrap":
+		return Action{Op: "api", Kind: "bootstrap", Node: node, Mode: rapid.SampledFrom([]string{"valid", "missing-self", "wrong-address", "empty"}).Draw(t, "bmode")}
+	case "start":
+		return Action{Op: "api", Kind: "start", Node: node}
+	case "restart":
+		return Action{Op: "api", Kind: "restart", Node: node}
+	case "stop":
+		return Action{Op: "api", Kind: "stop", Node: node}
+	case "newraft":
+		return Action{Op: "api", Kind: "newraft", Node: node, Mode: rapid.SampledFrom([]string{"valid", "nil-log", "nil-state", "nil-snapshots", "nil-transport", "bad-address", "empty-address", "zero-timeouts"}).Draw(t, "nmode")}
+	case "isolate":
+		return Action{Op: "isolate", Node: node, Mode: g.holdMode("mode"), Dir: rapid.SampledFrom([]string{"both", "in", "out"}).Draw(t, "dir")}
+	case "heal":
+		return Action{Op: "heal", Mode: "deliver"}
+	case "crash":
+		if n := g.C.Nodes[node]; n != nil && n.Running() {
+			return Action{Op: "crash", Node: node}
+		}
+	case "noderestart":
+		if n := g.C.Nodes[node]; n != nil && n.Stopped() && n.everStarted {
+			return Action{Op: "restart", Node: node}
+		}
+	}
+	return Action{Op: "advance", DurUs: g.dur("apiAdv", 1000, hb, et/2, et, 2*et)}
 }
 
 // freeAction draws one action uniformly over what is enabled.
